@@ -133,7 +133,7 @@ where
                 let id = self.get_identifier()?;
                 Ok(ast::InlineExpression::VariableReference { id })
             }
-            Some(b) if b.is_ascii_alphabetic() => {
+            Some(b) if b.is_ascii_alphabetic() && !only_literal => {
                 self.ptr += 1;
                 let id = self.get_identifier_unchecked();
                 let arguments = self.get_call_arguments()?;
